@@ -18,8 +18,9 @@ for d in sorted(glob.glob(os.path.join(root, "C*"))):
     blind = None
     for lg in sorted(glob.glob(os.path.join(d, "blind_check_*.log"))):
         txt = open(lg, errors="replace").read()
-        rnd4 = mid[-1] in "GH"
-        blind = dict(check_version=("/verif commit 5240e24 (before any round-4 report existed)" if rnd4 else "/verif commit a1e1af9 (before any round-3 report existed)"), log=os.path.basename(lg),
+        ver = {"E": "a1e1af9 (before any round-3 report existed)", "F": "a1e1af9 (before any round-3 report existed)", "G": "5240e24 (before any round-4 report existed)",
+               "H": "5240e24 (before any round-4 report existed)", "I": "3c554af (before any round-5 report existed)", "J": "3c554af (before any round-5 report existed)"}.get(mid[-1], "?")
+        blind = dict(check_version="/verif commit " + ver, log=os.path.basename(lg),
                      detected=bool(re.findall(r"^VIOLATION property=", txt, re.M)))
     meta = dict(
         id=mid,
